@@ -939,7 +939,19 @@ class XRFacade:
         ca, cb = a._cid.get(d), b._cid.get(d)
         def _pref(x, y):
             return isinstance(x, tuple) and x and x[0] == "prefix" and cid_equal(x[1], y)
-        if ca is not None and cb is not None and _pref(ca, cb):
+        def _rng_prefix(x, y, ex, ey):
+            # label ranges first..first+extent-1: the shorter one is the leading part of the longer one
+            return (isinstance(x, tuple) and isinstance(y, tuple) and x and y and x[0] == y[0] == "range" and x[1] == y[1]
+                    and not same_ext(ex, ey) and decide(ex.z <= ey.z))
+        if ca is not None and cb is not None and _rng_prefix(ca, cb, a._ext[d], b._ext[d]):
+            b = b._prefix(d, PNum(a._ext[d].z))
+            b = b._new(b.term, cid={**b._cid, d: ca})
+            cb = ca
+        elif ca is not None and cb is not None and _rng_prefix(cb, ca, b._ext[d], a._ext[d]):
+            a = a._prefix(d, PNum(b._ext[d].z))
+            a = a._new(a.term, cid={**a._cid, d: cb})
+            ca = cb
+        elif ca is not None and cb is not None and _pref(ca, cb):
             b = b._prefix(d, PNum(a._ext[d].z))        # inner join: the labels of a are the leading labels of b
             b = b._new(b.term, cid={**b._cid, d: ca})
             cb = ca
